@@ -9,7 +9,11 @@ import (
 	"encoding/hex"
 	"encoding/json"
 	"fmt"
+	gcmd "github.com/google/gce-tcb-verifier/gcetcbendorsement/cmd"
+	"io"
 	"math/rand"
+	"os"
+	"path/filepath"
 	"sort"
 	"strconv"
 	"strings"
@@ -487,6 +491,61 @@ func checkRenderings(run *vk.Run) {
 			"tdx.measurements[1].mrtd": g.Tdx.Measurements[1].Mrtd, "sev_snp.svsm_measurement": g.SevSnp.SvsmMeasurement, "commit": g.Commit} {
 			p := p
 			do("mask "+p, want, func(ctx context.Context) error { return gtb.InspectMask(ctx, e, &fmpb.FieldMask{Paths: []string{p}}) })
+		}
+	}
+	// the same renderings through the inspect sub-commands with the real file backend: a separate
+	// output file, the input file itself, and a symbolic link to it
+	dir, derr := os.MkdirTemp("", "vk-c19-")
+	if derr != nil {
+		run.Infra(derr)
+		return
+	}
+	defer os.RemoveAll(dir)
+	eb, _ := proto.Marshal(e)
+	for fname := range forms {
+		form := forms[fname]
+		for _, sub := range []struct {
+			name string
+			args []string
+			want []byte
+		}{{"payload", nil, e.SerializedUefiGolden}, {"signature", nil, e.Signature}, {"mask", []string{"--path", "cert"}, g.Cert}, {"mask", []string{"--path", "sev_snp.measurements[1]"}, g.SevSnp.Measurements[1]}} {
+			for _, alias := range []string{"separate", "same", "symlink"} {
+				in := filepath.Join(dir, "endorsement.binarypb")
+				if err := os.WriteFile(in, eb, 0o600); err != nil {
+					run.Infra(err)
+					return
+				}
+				out := filepath.Join(dir, "out.bin")
+				os.Remove(out)
+				switch alias {
+				case "same":
+					out = in
+				case "symlink":
+					if err := os.Symlink(in, out); err != nil {
+						run.Infra(err)
+						return
+					}
+				}
+				root := gcmd.MakeRoot(gcmd.ContextWithBackend(context.Background(), &gcmd.Backend{IO: gcmd.OSIO{}}))
+				root.SetArgs(append([]string{"inspect", sub.name, in, "--out", out, "--bytesform", fname}, sub.args...))
+				root.SetOut(io.Discard)
+				root.SetErr(io.Discard)
+				root.SilenceErrors, root.SilenceUsage = true, true
+				var xerr error
+				pan, _ := guarded(func() { xerr = root.Execute() })
+				if pan != "" {
+					run.Violation("inspect-panic", fmt.Sprintf("inspect %s --out (%s) --bytesform %s panics: %s", sub.name, alias, fname, pan), nil)
+					continue
+				}
+				if xerr == nil {
+					written, _ := os.ReadFile(out)
+					got, derr := decode(form, written)
+					if derr != nil || !bytes.Equal(got, sub.want) {
+						run.Violation("inspect-not-exact:cli", fmt.Sprintf("`inspect %s %v --bytesform %s` with the output file being %s (the input) exits 0 but writes %d bytes that are not the exact field bytes (%d expected)", sub.name, sub.args, fname, alias, len(written), len(sub.want)), map[string]any{"sub": sub.name, "alias": alias, "form": fname})
+					}
+				}
+				run.Case("render-cli:"+sub.name+strings.Join(sub.args, " ")+":"+fname+":"+alias, true)
+			}
 		}
 	}
 }
